@@ -8,7 +8,7 @@ package server
 // written from the property text: it knows the policy predicate, whether the session has a
 // socket, and whether the hook rewrote the session's destination. It does NOT model the
 // decision cache - which victim the real code evicts (Go map order) cannot influence what the
-// reference expects; the cache is covered by the coherence invariant read from e.aclCache.
+// reference expects; the cache is covered by the coherence invariant read from c08Cache(e).
 
 import (
 	"bytes"
@@ -25,6 +25,7 @@ import (
 
 	"github.com/apernet/hysteria/core/v2/internal/protocol"
 	"verif.local/engine/evidence"
+	"verif.local/engine/vpriv"
 	"verif.local/engine/xstate"
 )
 
@@ -264,25 +265,53 @@ func c08NewWorld(allow func(string) bool, hook func(string) (string, bool), dest
 // teardown closes every session (the receive loops exit because the fake socket's ReadFrom
 // returns an error once closed) - nothing of a finished history keeps running.
 func (w *c08World) teardown() {
-	w.m.cleanup(false)
+	verifCleanupAll(w.m)
 	for _, c := range w.io.conns {
 		_ = c.Close()
 	}
 	runtime.Gosched()
 }
 
+// entry peeks at the session entry in the manager's private table. Table and lock are found by
+// TYPE (the manager's only map[uint32]*udpSessionEntry, its only mutex), so a rename of the
+// private fields does not break the harness; c08PrivMissing records what could not be found.
 func (w *c08World) entry() *udpSessionEntry {
-	w.m.mutex.RLock()
-	defer w.m.mutex.RUnlock()
-	return w.m.m[c08SID]
+	if unlock, ok := vpriv.ReadLock(w.m); ok {
+		defer unlock()
+	} else {
+		c08PrivMissing["udpSessionManager: its mutex"] = true
+	}
+	tab, ok := vpriv.FieldByType[map[uint32]*udpSessionEntry](w.m)
+	if !ok {
+		c08PrivMissing["udpSessionManager: its map[uint32]*udpSessionEntry"] = true
+		return nil
+	}
+	return tab[c08SID]
+}
+
+var c08PrivMissing = map[string]bool{}
+
+// c08Cache is the session's private decision cache (the entry's only map[string]error), live: the
+// search reads it for the coherence invariant and swaps entries to enumerate the eviction victim.
+// nil when the entry keeps its decisions in another shape: those extra oracles are then skipped.
+func c08Cache(e *udpSessionEntry) map[string]error {
+	if e == nil {
+		return nil
+	}
+	c, ok := vpriv.FieldByType[map[string]error](e)
+	if !ok {
+		c08PrivMissing["udpSessionEntry: its map[string]error decision cache"] = true
+		return nil
+	}
+	return c
 }
 
 func c08CacheCopy(e *udpSessionEntry) map[string]error {
-	if e == nil || e.aclCache == nil {
+	if e == nil || c08Cache(e) == nil {
 		return nil
 	}
-	cp := make(map[string]error, len(e.aclCache))
-	for k, v := range e.aclCache {
+	cp := make(map[string]error, len(c08Cache(e)))
+	for k, v := range c08Cache(e) {
 		cp[k] = v
 	}
 	return cp
@@ -312,10 +341,10 @@ func (w *c08World) willEvict(dest string) bool {
 	if e == nil || e.conn == nil || e.OverrideAddr != "" {
 		return false
 	}
-	if _, ok := e.aclCache[dest]; ok {
+	if _, ok := c08Cache(e)[dest]; ok {
 		return false
 	}
-	return len(e.aclCache) >= maxSessionACLCache
+	return len(c08Cache(e)) >= maxSessionACLCache
 }
 
 // datagram feeds one complete, unfragmented datagram addressed to dest into the real manager
@@ -462,12 +491,12 @@ func c08Events(ev []c08Event) string {
 // fixVictim: see datagram().
 func (w *c08World) fixVictim(before map[string]error, dest string, victim int) {
 	e := w.entry()
-	if e == nil || e.aclCache == nil || len(before) == 0 {
+	if e == nil || c08Cache(e) == nil || len(before) == 0 {
 		return
 	}
 	var evicted []string
 	for k := range before {
-		if _, ok := e.aclCache[k]; !ok {
+		if _, ok := c08Cache(e)[k]; !ok {
 			evicted = append(evicted, k)
 		}
 	}
@@ -479,11 +508,11 @@ func (w *c08World) fixVictim(before map[string]error, dest string, victim int) {
 	if chosen == evicted[0] || chosen == dest {
 		return
 	}
-	if _, ok := e.aclCache[chosen]; !ok {
+	if _, ok := c08Cache(e)[chosen]; !ok {
 		return
 	}
-	delete(e.aclCache, chosen)
-	e.aclCache[evicted[0]] = before[evicted[0]]
+	delete(c08Cache(e), chosen)
+	c08Cache(e)[evicted[0]] = before[evicted[0]]
 }
 
 // invariant: cache coherence and bookkeeping, read from the private fields.
@@ -516,11 +545,11 @@ func (w *c08World) invariant() error {
 	if e.OverrideAddr != wantOvr || e.OriginalAddr != wantOrig {
 		return c08Bad("override-bookkeeping", "OverrideAddr=%q OriginalAddr=%q, expected %q / %q", e.OverrideAddr, e.OriginalAddr, wantOvr, wantOrig)
 	}
-	if len(e.aclCache) > maxSessionACLCache {
-		return c08Bad("cache-over-capacity", "len(aclCache)=%d > %d", len(e.aclCache), maxSessionACLCache)
+	if len(c08Cache(e)) > maxSessionACLCache {
+		return c08Bad("cache-over-capacity", "len(aclCache)=%d > %d", len(c08Cache(e)), maxSessionACLCache)
 	}
-	for _, k := range c08SortedKeys(e.aclCache) {
-		v := e.aclCache[k]
+	for _, k := range c08SortedKeys(c08Cache(e)) {
+		v := c08Cache(e)[k]
 		if !w.dests[k] {
 			return c08Bad("cache-foreign-key", "aclCache holds %q which was never a destination of this session's policy domain", k)
 		}
@@ -584,7 +613,7 @@ func (w *c08World) cleanupOp() error {
 	w.step++
 	nEv0 := w.log.n()
 	wasOpen := w.open
-	w.m.cleanup(false)
+	verifCleanupAll(w.m)
 	w.open, w.hooked, w.orig, w.target, w.peer = false, false, "", "", ""
 	if wasOpen {
 		ev := w.log.since(nEv0)
@@ -701,8 +730,8 @@ func (s *c08Sys) Key() string {
 	}
 	var sb strings.Builder
 	fmt.Fprintf(&sb, "conn=%v ovr=%q orig=%q cache=[", e.conn != nil, e.OverrideAddr, e.OriginalAddr)
-	for _, k := range c08SortedKeys(e.aclCache) {
-		fmt.Fprintf(&sb, "%s=%v;", k, e.aclCache[k] == nil)
+	for _, k := range c08SortedKeys(c08Cache(e)) {
+		fmt.Fprintf(&sb, "%s=%v;", k, c08Cache(e)[k] == nil)
 	}
 	sb.WriteString("]")
 	return sb.String()
@@ -867,7 +896,7 @@ func c08ReplaySearch(part string, raw json.RawMessage) (bool, bool, string) {
 }
 
 func TestVerifC08Search(t *testing.T) {
-	evidence.Main(t, "C08", evidence.Seq{Run: c08Search, Replay: c08ReplaySearch})
+	evidence.Main(t, "C08", evidence.Seq{Run: func(sh *evidence.Shard) { c08Search(sh); c08NotePriv(sh) }, Replay: c08ReplaySearch})
 }
 
 // ---------------------------------------------------------------------------------------------
@@ -933,8 +962,8 @@ func c08RunReal(c *c08RealCase) (verr error, where string, maxCache int, checks 
 		if err := w.datagram(c08RealDest(i), -1); err != nil {
 			return err
 		}
-		if e := w.entry(); e != nil && len(e.aclCache) > maxCache {
-			maxCache = len(e.aclCache)
+		if e := w.entry(); e != nil && len(c08Cache(e)) > maxCache {
+			maxCache = len(c08Cache(e))
 		}
 		return nil
 	}
@@ -1028,5 +1057,30 @@ func c08ReplayReal(part string, raw json.RawMessage) (bool, bool, string) {
 }
 
 func TestVerifC08Real(t *testing.T) {
-	evidence.Main(t, "C08", evidence.Seq{Run: c08Real, Replay: c08ReplayReal})
+	evidence.Main(t, "C08", evidence.Seq{Run: func(sh *evidence.Shard) { c08Real(sh); c08NotePriv(sh) }, Replay: c08ReplayReal})
+}
+
+// verifCleanupAll closes every session of a manager at the end of a case. The private
+// cleanup(idleOnly bool) method is called through an interface assertion, so that a refactor of
+// it does not break the harness build; without it the sessions are left to the fake sockets'
+// Close (every case uses fresh objects).
+func verifCleanupAll(m *udpSessionManager) {
+	if c, ok := any(m).(interface{ cleanup(bool) }); ok {
+		c.cleanup(false)
+	}
+}
+
+
+// c08NotePriv records private state the harness could not locate on this tree (the oracles that
+// read it were skipped).
+func c08NotePriv(sh *evidence.Shard) {
+	var ns []string
+	for n := range c08PrivMissing {
+		ns = append(ns, n)
+	}
+	if len(ns) == 0 {
+		return
+	}
+	sort.Strings(ns)
+	sh.Assume("private state not found by type on this tree: " + strings.Join(ns, "; ") + " — the cache-coherence invariant, the eviction-victim enumeration and that part of the state key were skipped; the policy oracle on every forwarded datagram still ran")
 }
